@@ -74,6 +74,7 @@ fn main() {
         hist_reader: None,
         hist_log: Vec::new(),
         hist_cursor: 0,
+        table: Vec::new(),
     };
     ctx.rep.rule = monitors::zoo::rule_text(&prop);
     let fams = families_for(&prop);
@@ -143,5 +144,8 @@ fn main() {
         ctx.mode = Mode::Single;
     }
     monitors::zoo::finish(&mut ctx);
+    if prop == "C19" {
+        std::fs::write(format!("{}.table", out), ctx.table.join("\n")).expect("table");
+    }
     ctx.rep.write(&out);
 }
